@@ -91,7 +91,8 @@ def run(ctx):
     v, bads = ctx.tlc_trace(TRACE_SPEC[0], TRACE_SPEC[1], allf, must_hit=MUST_HIT, timeout=2400)
     hits = v.get("hits", {})
     ctx.drift = int(hits.get("Drift", 0))
-    if hits.get("Expect", 0) != 2 * len(replay_in) - sum(1 for c in replay_in if c["kind"] == "encode" and c["fit"] == "err"):
+    n_err = sum(1 for c in replay_in if c["kind"] == "encode" and c["fit"] == "err")
+    if hits.get("Expect", 0) != 2 * (len(replay_in) - n_err):       # two element types per model input
         raise vlib.ToolError("not every replayed model input came back with its expectation")
     for (l, runid, ev, clause) in bads:
         e = events[l - 1]
